@@ -155,10 +155,17 @@ func ruleLiveField(c *Ctx, r *Rep) {
 		for _, ci := range callsIn(fn) {
 			switch calleeFullName(ci) {
 			case "(reflect.Value).FieldByName":
+				if len(ci.Common().Args) < 2 {
+					continue // a method value: the name is not at hand here
+				}
 				if k, ok := ci.Common().Args[1].(*ssa.Const); ok && k.Value != nil {
 					byName[constant.StringVal(k.Value)] = append(byName[constant.StringVal(k.Value)], fn)
 				}
 			case "(reflect.Value).Field":
+				if len(ci.Common().Args) < 2 {
+					reflectAll = append(reflectAll, fn)
+					continue
+				}
 				if _, isConst := ci.Common().Args[1].(*ssa.Const); !isConst {
 					reflectAll = append(reflectAll, fn)
 				}
